@@ -48,6 +48,7 @@ def handle (line : String) : String :=
   | ["parse", t, o] => handleParse t o
   | ["parserule", t, o] => handleParseRule t o
   | ["display", e, o] => handleDisplay e o
+  | ["disptoks", e, o] => handleDispToks e o
   | ["ping"] => "pong"
   | _ => "bad-request"
 
